@@ -46,6 +46,8 @@ package swarmutil
 //@   ensures [handoff] ret == nil ==> ghost(called)
 //@   after call fn:
 //@     set called = true
+//@   before call close:
+//@     assert [afterfn] ghost(called)
 //@   fnspec fn:
 //@     ensures inv(q)
 //@     preserves req, req.done, closed(req.done), q.closed, q.delivers
@@ -87,6 +89,8 @@ package swarmutil
 //@   ensures [handoff] ret == nil ==> ghost(called)
 //@   after call fn:
 //@     set called = true
+//@   before call close:
+//@     assert [afterfn] ghost(called)
 //@   fnspec fn:
 //@     ensures inv(q)
 //@     preserves req, req.done, closed(req.done), q.closed, q.reqs
